@@ -194,6 +194,48 @@ def run_parzen(inp):
   return init, outs, snaps, resolved
 
 
+def stub_pz_formula(pe):
+  """The deterministic stub optimiser of the Parzen constant liar, mirrored by LiesCorr.stub_pick_pz: half the last point of the
+  greater set, shifted by a quarter of the number of greater points and an eighth of the number of lower points."""
+  return numpy.array(pe.greater_points[-1], dtype=float) / 2.0 + len(pe.greater_points) / 4.0 + len(pe.lower_points) / 8.0
+
+
+def run_pz_constant_liar(inp):
+  """The real SPENextPoints.suggest_next_points_constant_liar on a real estimator that ALREADY HOLDS lies (inp["pre_lower"],
+  inp["pre_greater"]: what pending points leave behind), the multistart optimiser replaced by a stub that records the estimator it
+  is handed.  Returns dict(init, picks, seen, final, same_object)."""
+  import libsigopt.views.rest.spe_next_points as spe
+  from libsigopt.compute.domain import CategoricalDomain
+  pe = mk_parzen(inp)
+  d = inp["dim"]
+  pe.append_lies([numpy.array(x, dtype=float) for x in inp["pre_lower"]], lower=True)
+  pe.append_lies([numpy.array(x, dtype=float) for x in inp["pre_greater"]], lower=False)
+  dom = CategoricalDomain([{"var_type": "double", "elements": [-1024.0, 1024.0]} for _ in range(d)])
+  init = parzen_state(pe)
+  seen, calls, handed = [], [0], []
+  scripted = inp.get("picks")
+
+  class StubMS:
+    def __init__(self, optimizer, num_multistarts=0, log_sample=False):
+      self.optimizer = optimizer
+
+    def optimize(self, selected_starts=None, **kwargs):
+      est = self.optimizer.objective_function
+      handed.append(est is pe)
+      seen.append(parzen_state(est))
+      p = numpy.array(scripted[calls[0]], dtype=float) if scripted is not None else stub_pz_formula(est)
+      calls[0] += 1
+      return p, None
+
+  orig = spe.MultistartOptimizer
+  spe.MultistartOptimizer = StubMS
+  try:
+    out = spe.SPENextPoints.suggest_next_points_constant_liar(pe, inp["n"], dom, 5)
+  finally:
+    spe.MultistartOptimizer = orig
+  return dict(init=init, picks=tolist2(out), seen=seen, final=parzen_state(pe), same_object=all(handed))
+
+
 # ------------------------------------------------------------------------------------------ constant liar with a stub optimiser
 
 
@@ -246,6 +288,68 @@ def run_constant_liar(inp):
   same = before == after and not shared[0]
   return dict(picks=tolist2(pts), seen=seen, unchanged=same,
               detail=None if same else ("optimisers were handed the caller's object" if shared[0] else diff_snap(before, after)))
+
+
+def run_constant_liar_real(inp):
+  """constant_liar_acquisition_function_optimization with its REAL optimisers (DE, then Adam) at reduced effort (60 DE multistarts, 300
+  pretest locations, at most 10 DE iterations - the loop, the construction and the life of the optimiser objects are the library's).
+  vectorized_acquisition_optimization is wrapped, not replaced: at every round the predictor of the acquisition function it is handed
+  is recorded, and every point either optimiser evaluates in that round is logged (hooks on evaluate_and_monitor, installed once per
+  optimiser object, so an object that lives across rounds logs into the round that is running).
+  Returns dict(picks, rounds=[dict(num, pts, vals, noise, evaluated=set of rows, fresh_es, fresh_gd)], unchanged, detail)."""
+  import libsigopt.compute.acquisition_function_optimization as afo
+  from libsigopt.compute.domain import CategoricalDomain
+  from libsigopt.compute.expected_improvement import ExpectedImprovement
+  from libsigopt.compute.optimization_auxiliary import OptimizerInfo
+  d = inp["dim"]
+  numpy.random.seed(inp.get("seed", 0))
+  pred = mk_sum(inp) if "comps" in inp else mk_gp(d, inp["pts"], inp["vals"], inp["noise"], inp.get("tik"))
+  if inp.get("warm"):
+    _ = pred.points_sampled_value, pred.points_sampled_noise_variance, pred.best_observed_value
+  af = ExpectedImprovement(pred)
+  lo = min(float(x) for p in inp["pts"] for x in p) - 2.0
+  hi = max(float(x) for p in inp["pts"] for x in p) + 2.0
+  dom = CategoricalDomain([{"var_type": "double", "elements": [lo, hi]} for _ in range(d)])
+  rounds, hooked = [], {}
+
+  def hook(opt):
+    if id(opt) in hooked:
+      return False
+    real = opt.evaluate_and_monitor
+
+    def logged(points):
+      out = real(points)
+      rounds[-1]["evaluated"].update(numpy.ascontiguousarray(row, dtype=float).tobytes() for row in numpy.asarray(points, dtype=float).reshape(len(points), -1))
+      return out
+
+    opt.evaluate_and_monitor = logged
+    hooked[id(opt)] = opt          # keeps the object alive, so ids are not re-used
+    return True
+
+  orig_v, orig_find, orig_es = afo.vectorized_acquisition_optimization, afo.find_optimizer_maxiter, afo.DEFAULT_NEXT_POINTS_ES_OPTIMIZER_INFO
+
+  def wrapped(es_opt, gd_opt, pretest):
+    p = es_opt.af.predictor
+    rounds.append(dict(num=int(p.num_sampled), pts=tolist2(p.points_sampled), vals=[float(x) for x in p.points_sampled_value],
+                       noise=[float(x) for x in p.points_sampled_noise_variance], evaluated=set(),
+                       shared_with_caller=(es_opt.af is af or gd_opt.af is af), one_af=(es_opt.af is gd_opt.af)))
+    rounds[-1]["fresh_es"], rounds[-1]["fresh_gd"] = hook(es_opt), hook(gd_opt)
+    return orig_v(es_opt, gd_opt, pretest)
+
+  before = snap(af)
+  afo.vectorized_acquisition_optimization = wrapped
+  afo.find_optimizer_maxiter = lambda **kw: min(orig_find(**kw), 10)
+  afo.DEFAULT_NEXT_POINTS_ES_OPTIMIZER_INFO = OptimizerInfo(optimizer=orig_es.optimizer, parameters=orig_es.parameters, num_multistarts=60,
+                                                            num_random_samples=300)
+  try:
+    pts, _info = afo.constant_liar_acquisition_function_optimization(dom.one_hot_domain, af, inp["n"])
+  finally:
+    afo.vectorized_acquisition_optimization, afo.find_optimizer_maxiter, afo.DEFAULT_NEXT_POINTS_ES_OPTIMIZER_INFO = orig_v, orig_find, orig_es
+  after = snap(af)
+  shared = any(r["shared_with_caller"] for r in rounds)
+  same = before == after and not shared
+  return dict(picks=tolist2(pts), rounds=rounds, unchanged=same,
+              detail=None if same else ("optimisers were handed the caller's object" if shared else diff_snap(before, after)))
 
 
 # ------------------------------------------------------------------------------------------ search with a stub optimiser
@@ -449,8 +553,41 @@ def run_endpoint(inp):
     return pe
 
   def stub_draw(pe, num_to_sample, domain, **k):
+    """records the estimator on entry, then runs the REAL draw_samples (its constant-liar call included) for one batch of the
+    rejection sampler; only the multistart optimiser inside is a stub (it returns its first start and records the estimator it is
+    handed); the estimator is snapshotted at every expected-improvement evaluation and when draw_samples returns"""
     rec["parzen"]["at_sampling"] = parzen_state(pe)
-    return domain.one_hot_domain.generate_quasi_random_points_in_domain(num_to_sample), 0, 1.0, 1
+    evals = []
+    real_ei = pe.evaluate_expected_improvement
+
+    def rec_ei(points):
+      evals.append(parzen_state(pe))
+      return real_ei(points)
+
+    class StubMS:
+      def __init__(self, optimizer, num_multistarts=0, log_sample=False):
+        self.optimizer = optimizer
+
+      def optimize(self, selected_starts=None, **kwargs):
+        est = self.optimizer.objective_function
+        rec["parzen"]["cl_same_object"] = est is pe
+        rec["parzen"]["cl_seen"] = parzen_state(est)
+        rec["parzen"]["cl_evals_before"] = len(evals)
+        pick = numpy.array(selected_starts[0], dtype=float)
+        rec["parzen"]["cl_pick"] = pick.tolist()
+        return pick, None
+
+    orig_ms = spe.MultistartOptimizer
+    spe.MultistartOptimizer = StubMS
+    pe.evaluate_expected_improvement = rec_ei
+    try:
+      out = saved[3](pe, num_to_sample, domain, rejection_samples_limit=1, **k)
+    finally:
+      spe.MultistartOptimizer = orig_ms
+      del pe.evaluate_expected_improvement
+    rec["parzen"]["after_sampling"] = parzen_state(pe)
+    rec["parzen"]["evals_after_pick"] = evals[rec["parzen"].get("cl_evals_before", 0):]
+    return out
 
   saved = (gpn.constant_liar_acquisition_function_optimization, gpn.qei_acquisition_function_optimization,
            snp.search_strategy_optimization, spe.SPENextPoints.draw_samples)
